@@ -2,6 +2,7 @@ package props
 
 import (
 	"fmt"
+	"github.com/scottyw/tetromino/gameboy/controller"
 	"os"
 	"path/filepath"
 
@@ -14,7 +15,7 @@ import (
 // Both go through Mapper.Read/Write only; no machine cycle elapses between a write and the reads.
 
 // machine states the sweeps start from
-var busStates = []string{"power-on", "lcd-off", "lcd-off+apu-off", "after-busy-rom", "mbc1-ram-enabled", "ch3-playing", "dma-in-flight", "dacs-on-idle", "dac3-on-fresh", "lcd-off+all-requested"}
+var busStates = []string{"power-on", "lcd-off", "lcd-off+apu-off", "after-busy-rom", "mbc1-ram-enabled", "ch3-playing", "dma-in-flight", "dacs-on-idle", "dac3-on-fresh", "lcd-off+all-requested", "keys-held"}
 
 func busMachine(state string, repo string) (*machine.M, ref.CartKind) {
 	kind := ref.KNone
@@ -62,6 +63,11 @@ func busMachine(state string, repo string) (*machine.M, ref.CartKind) {
 	case "lcd-off+all-requested":
 		m.Map.Write(0xff0f, 0x1f) // every interrupt requested, none enabled, timer stopped
 		m.Map.Write(0xffff, 0x00)
+	case "keys-held":
+		// Right and A held on the pad while neither group is selected (JOYP = 30): selecting a group is a plain register write
+		m.Map.Write(0xff00, 0x30)
+		m.C.ButtonAction(controller.Right, true)
+		m.C.ButtonAction(controller.A, true)
 	case "dac3-on-fresh":
 		m.Map.Write(0xff26, 0x80)
 		m.Map.Write(0xff1a, 0x80) // channel 3's DAC on, never triggered
@@ -449,6 +455,9 @@ func init() {
 		explore.Product(c.R, "read-back", explore.PartOpt{Bound: "no time elapses between write and read", Domain: "10 machine states x {plain, io, unusable}"},
 			func(yield func(c06Case) bool) {
 				for _, s := range busStates {
+					if s == "keys-held" {
+						continue // JOYP's input nibble under held keys is C22's; the state exists for C07
+					}
 					for _, p := range []string{"plain", "io", "unusable"} {
 						if !yield(c06Case{s, p}) {
 							return
@@ -463,7 +472,7 @@ func init() {
 			c.R.Assumptions = []string{"quick: every address FE00-FFFF, every 0x100-aligned address +-1 elsewhere and every region boundary +-1; thorough: all 65,536 addresses"}
 		}
 		vals := []uint8{0x00, 0xff, 0x55, 0xaa, 0x01, 0x80, 0x0a, 0xe5}
-		explore.Product(c.R, "write-effect-sets", explore.PartOpt{Bound: "single write, full-space diff", Domain: "10 machine states (FF10-FF3F: every write from the state itself); plus FF10-FF3F x 8 values each written from a busy APU (all channels playing, length counters at 1, second half of a frame-sequencer period)"},
+		explore.Product(c.R, "write-effect-sets", explore.PartOpt{Bound: "single write, full-space diff", Domain: "11 machine states (FF10-FF3F: every write from the state itself); plus FF10-FF3F x 8 values each written from a busy APU (all channels playing, length counters at 1, second half of a frame-sequencer period)"},
 			func(yield func(c07Case) bool) {
 				// sound registers from a busy APU, every write from the state itself
 				for lo := 0xff10; lo < 0xff40; lo += 4 {
@@ -476,7 +485,7 @@ func init() {
 					for lo := 0xfe00; lo < 0x10000; lo += 0x10 {
 						// the sound registers and wave RAM: every write from the state itself (a sweep over NR52 or NR30
 						// would otherwise destroy the state for the addresses after it)
-						fresh := (lo >= 0xff10 && lo < 0xff40 && s != "after-busy-rom") || (s == "lcd-off+all-requested" && lo >= 0xff00 && lo < 0xff80)
+						fresh := (lo >= 0xff10 && lo < 0xff40 && s != "after-busy-rom") || ((s == "lcd-off+all-requested" || s == "keys-held") && lo >= 0xff00 && lo < 0xff80)
 						if !yield(c07Case{State: s, Lo: lo, Hi: lo + 0x0f, Vals: vals, Fresh: fresh}) {
 							return
 						}
